@@ -149,8 +149,8 @@ type hist struct {
 	// but whose memory still matters for classifying damage to live messages.
 	ghosts []*entry
 	log    []opRec
-	next  int
-	step  int
+	next   int
+	step   int
 	// counters (flushed into buckets at the end)
 	cnt map[string]int64
 	// recycled: a Dispose happened; recycledLive: a Clone/ctor happened after a
@@ -590,7 +590,7 @@ func (h *hist) quarantineOPTFallback(src *entry, c *dns.Msg) {
 		h.r.Violation("cloner:opt-copy-fallback-shares-subnet-address",
 			"the clone of a message whose OPT record has an option unknown to the cloner shares the client-subnet address bytes with its original: writing the original's address changed the clone",
 			h.witness(map[string]any{"src": src.id, "src_kind": src.kind, "src_content": src.desc,
-				"ops": []string{"m := message with OPT{..., SUBNET, <option other than COOKIE/EDE/SUBNET>}", "c := cloner.Clone(m)", "m.subnet.Address[last] ^= 0xff", "read c"},
+				"ops":                 []string{"m := message with OPT{..., SUBNET, <option other than COOKIE/EDE/SUBNET>}", "c := cloner.Clone(m)", "m.subnet.Address[last] ^= 0xff", "read c"},
 				"clone_subnet_before": before, "clone_subnet_after_writing_original": after}))
 		cl.Address = append(net.IP(nil), cl.Address...)
 	}
